@@ -89,6 +89,26 @@
 // all tries on disk) - Balances(db, root) walks an account trie and returns balance
 // by hashed address (the "balance dump" of C32).
 //
+// # Reuse notes (C33, C36, C37)
+//
+//   - Options: Variants restricts the rule sets (e.g. only VariantByName("amsterdam")
+//     for C33), MaxBlocks/MaxTxs/MaxContracts/MaxScenarios size the world, Gen
+//     replaces the evmprog configuration (e.g. Monotone for C37, Bounded when code
+//     runs without a gas limit), NoBlobs/NoSetCode/NoWithdrawals/NoUncles/NoStorage
+//     switch features off.
+//   - Transactions without the chain maker: draw plans with World.DrawPlan and turn
+//     them into signed transactions with Materialize(plan, &Env{...}) against any
+//     StateView (GetBalance/GetNonce - a *state.StateDB satisfies it); Env carries the
+//     signer, rules, base fee, blob base fee, coinbase and the gas/blob budget left.
+//     TxInfo.From/Tx/Clipped tell what came out. Keys[i].Priv signs anything else.
+//   - Built.Txs[i][j] pairs every included transaction with its plan; Built.Receipts
+//     are the chain maker's receipts; Built.Chain is a live BlockChain (Close it).
+//   - Known classes of outcome (C32 evidence): about 40% of the transactions fail on
+//     purpose (REVERT/INVALID terminators, tight gas); about a third of the blocks
+//     contain an effective SELFDESTRUCT.
+//   - Any change to the order or number of rapid draws in this package changes the
+//     cases of every dependent check for a given seed (not their validity).
+//
 // # Determinism
 //
 // All randomness comes from the *rapid.T given to Draw. Build uses no randomness,
